@@ -122,7 +122,7 @@ func init() {
 			rules.S3(rc)
 			rules.S5(rc)
 			rules.S9(rc)
-			rules.S13(rc)
+			rules.S12(rc)
 		},
 	})
 	register(&Property{
@@ -132,7 +132,10 @@ func init() {
 			"Not decided: that shape and strides address distinct in-bounds positions (a runtime invariant over values), that reshape preserves the flat sequence, repeat/concat calculators' arithmetic.",
 		Run: func(rc *rules.RC) {
 			rules.S5(rc)
+			rules.S12(rc)
+			rules.S14(rc)
 			rules.S7(rc)
+			rules.LGuards(rc, "C13")
 			rules.O8(rc)
 		},
 	})
@@ -205,7 +208,9 @@ func init() {
 			rules.I12(rc)
 			rules.S9(rc)
 			rules.S2(rc)
-			rules.SP(rc, "C15", 2)
+			rules.SP(rc, "C15", 3)
+			rules.LGuards(rc, "C15")
+			rules.LF(rc, 20)
 			rules.TMask(rc)
 			rules.E1(rc, fileFilterName("dense_mask_filling.go", "dense_mask_inspection.go", "dense.go", "iterator.go", "iterator_mult.go"), 5)
 		},
@@ -219,6 +224,7 @@ func init() {
 			rules.L0(rc, nil)
 			rules.LGuards(rc, "C04")
 			rules.LC(rc, 18)
+			rules.LF(rc, 20)
 			rules.K1(rc, rules.Families(rc.P), func(f string) bool { return strings.HasPrefix(f, "tensor.handleFuncOpts") || strings.HasPrefix(f, "tensor.prepData") }, 2)
 			rules.V1(rc)
 			rules.O8(rc)
@@ -266,6 +272,7 @@ func init() {
 			rules.LA(rc)
 			rules.LGuards(rc, "C10")
 			rules.LC(rc, 18)
+			rules.LF(rc, 20)
 			rules.K1w(rc, func(stem string) bool { return strings.Contains(stem, "doViewStack") }, 4)
 			rules.E2(rc, fileFilterName("defaultengine_matop_misc.go", "defaultengine_matop_stack.go", "dense_matop_memmove.go", "array.go", "dense_assign.go"), 5)
 			rules.P2(rc, func(k string) bool {
@@ -303,6 +310,8 @@ func init() {
 				return false
 			}, 4)
 			rules.LGuards(rc, "C14")
+			rules.LF(rc, 20)
+			rules.S14(rc)
 			rules.K3(rc, fileFilter("dense_io.go"), 2, 25)
 		},
 	})
@@ -315,10 +324,11 @@ func init() {
 			rules.L0(rc, nil)
 			rules.LGuards(rc, "C16")
 			rules.LC(rc, 18)
+			rules.LF(rc, 20)
 			rules.T4(rc)
-			rules.S13(rc)
 			rules.S11(rc)
 			rules.S10(rc)
+			rules.K3(rc, fileFilter("defaultengine_linalg.go"), 3, 12)
 		},
 	})
 	register(&Property{
@@ -369,6 +379,7 @@ func init() {
 			rules.O6(rc)
 			rules.O7(rc, oa)
 			rules.O8(rc)
+			rules.O10(rc, 28)
 		},
 	})
 	register(&Property{
